@@ -16,8 +16,12 @@ decision that re-reads the field, or to a racy seed makes the proofs fail to re-
 The translator is deliberately narrow: every statement of the three bodies up to the point
 where the decision has been taken must be one of the shapes listed below, and every textual
 occurrence of `_ref_count` / the seed variable in the translation units must be accounted
-for.  Anything else raises Unrecognised -> ThreadImpl.v is replaced by a file that does not
-compile and names the reason (a broken correspondence).
+for.  Anything else raises Unrecognised for that function.  Then
+  * coq/theories/ThreadImplCheck.v (generated too; Properties_C18.v depends on it) is a file that
+    does NOT compile and names the reason: the proof obligation is reported broken;
+  * ThreadImpl.v stays compilable: the unrecognised function gets the REFERENCE shape as a marked
+    placeholder, so that ThreadModel / Extract_thr / the model driver still build and the runtime
+    stream (TSan + exact counts) still runs and can produce a concrete failing replay.
 
 Standalone use:  python3 tr/atomics.py [--repo DIR] [--print]
 """
@@ -26,6 +30,7 @@ import os, re, subprocess, sys
 HERE = os.path.dirname(os.path.abspath(__file__))
 VERIF = os.path.dirname(HERE)
 OUT = os.path.join(VERIF, "coq", "theories", "ThreadImpl.v")
+OUT_CHECK = os.path.join(VERIF, "coq", "theories", "ThreadImplCheck.v")
 
 
 class Unrecognised(Exception):
@@ -231,6 +236,32 @@ def rc_update_stmt(t):
     return None
 
 
+def flatten(stmts):
+    """inline plain { } blocks (scopes do not matter for the shapes recognised here)"""
+    out = []
+    for s in stmts:
+        if s[0] == "block":
+            out += flatten(s[1])
+        else:
+            out.append(s)
+    return out
+
+
+LOCAL_DECL = re.compile(r"^(?:const\s+)?(?:uint32_t|unsigned|unsigned int|int|uint_fast32_t)\s+(\w+)\s*=\s*(.*)$")
+
+
+def cas_once_stmt(t, reg_var):
+    """`[(void)] __sync_{val,bool}_compare_and_swap(&rc, v, v +/- K)` as a statement (result
+    ignored, no retry), v being the local that holds the value just loaded"""
+    if reg_var is None:
+        return None
+    m = re.match(r"^(?:\(void\)\s*)?__sync_(?:val|bool)_compare_and_swap\s*\(\s*&\s*%s\s*,\s*%s\s*,\s*%s\s*([+-])\s*(\d+)\s*\)$"
+                 % (RCF, re.escape(reg_var), re.escape(reg_var)), t)
+    if not m:
+        return None
+    return ["CASOnce RC %s" % (m.group(2) if m.group(1) == "+" else "(-%s)" % m.group(2))]
+
+
 def is_null_guard(s, ret):
     return s[0] == "if" and s[3] is None and re.match(r"^!\s*jso$|^jso\s*==\s*(NULL|\(\(void \*\)0\)|0)$", s[1]) \
         and len(s[2]) == 1 and s[2][0] == ("simple", "return " + ret)
@@ -241,8 +272,9 @@ def count_rc(text):
 
 
 def translate_get(body):
-    stmts = split_statements(body)
+    stmts = flatten(split_statements(body))
     ops, used, done = [], 0, False
+    reg_var = None
     shown = []
     for s in stmts:
         if done:
@@ -254,13 +286,30 @@ def translate_get(body):
             if NOP_STMT.match(t):
                 continue
             m = ASSERT_STMT.match(t)
-            if m and count_rc(t) >= 1:
+            if m and count_rc(t) == 0:
+                continue                      # an assert on locals only
+            if m:
                 # an assert that survived preprocessing reads the field non-atomically
                 ops.append("Load RC")
+                reg_var = None
                 used += count_rc(t)
                 shown.append(t[:80] + " ...")
                 continue
             u = rc_update_stmt(t)
+            if u is not None:
+                ops += u
+                reg_var = None
+                used += count_rc(t)
+                shown.append(t + ";")
+                continue
+            m = LOCAL_DECL.match(t)
+            if m and rc_expr(m.group(2)) == ["Load RC"]:
+                ops.append("Load RC")
+                reg_var = m.group(1)
+                used += count_rc(t)
+                shown.append(t + ";")
+                continue
+            u = cas_once_stmt(t, reg_var)
             if u is not None:
                 ops += u
                 used += count_rc(t)
@@ -280,7 +329,7 @@ def translate_get(body):
 
 
 def translate_put(body):
-    stmts = split_statements(body)
+    stmts = flatten(split_statements(body))
     ops, used, decided = [], 0, False
     reg_var = None          # a local variable currently holding the value of reg
     shown = []
@@ -296,7 +345,9 @@ def translate_put(body):
             if NOP_STMT.match(t):
                 continue
             m = ASSERT_STMT.match(t)
-            if m and count_rc(t) >= 1:
+            if m and count_rc(t) == 0:
+                continue
+            if m:
                 ops.append("Load RC")
                 reg_var = None
                 used += count_rc(t)
@@ -309,7 +360,14 @@ def translate_put(body):
                 used += count_rc(t)
                 shown.append(t + ";")
                 continue
-            m = re.match(r"^(?:const\s+)?(?:uint32_t|unsigned|unsigned int|int|uint_fast32_t)\s+(\w+)\s*=\s*(.*)$", t)
+            u = cas_once_stmt(t, reg_var)
+            if u is not None:
+                ops += u
+                reg_var = None        # the decision must not be taken on the pre-CAS value
+                used += count_rc(t)
+                shown.append(t + ";")
+                continue
+            m = LOCAL_DECL.match(t)
             if m:
                 e = rc_expr(m.group(2))
                 if e is None:
